@@ -144,7 +144,9 @@ struct SpyPolicy {
 
 impl Policy for SpyPolicy {
     fn process(&self, log: &mut LogFile) -> anyhow::Result<()> {
-        let shown = log.len_estimate() as u128;
+        // the two accessors of the length (`len` is the deprecated name of `len_estimate`) in turn
+        #[allow(deprecated)]
+        let shown = if self.calls.load(Ordering::SeqCst) % 2 == 0 { log.len_estimate() } else { log.len() } as u128;
         let disk = match std::fs::metadata(log.path()) {
             Ok(m) => Val::N(m.len() as u128),
             Err(_) => Val::L(vec![]),
